@@ -32,7 +32,7 @@ PROPERTY = "C19"
 FILES = ["insights/parsr/__init__.py", "insights/parsr/examples/json_parser.py", "insights/core/taglang.py", "insights/parsr/iniparser.py"]
 
 # ------------------------------------------------------------------ grammar terms (json-able)
-LEAVES = [["char", "a"], ["char", "b"], ["inset", "ab"], ["string", "ab"], ["lit", "ab"], ["ilit", "ab"], ["eof"]]
+LEAVES = [["char", "a"], ["char", "b"], ["inset", "ab"], ["string", "ab"], ["lit", "ab"], ["ilit", "ab"], ["ilit", "Ab"], ["eof"]]
 UNARY = [["many", 0], ["many", 1], ["many", 2], ["opt"], ["map"]]
 BINARY = ["seq", "choice", "keepleft", "keepright", "followedby", "notfollowedby", "until", "lift"]
 
@@ -206,6 +206,7 @@ def _any(fs):
 
 
 def _lower_eq(x, ch):
+    ch = ch.lower()          # a case-insensitive literal matches whatever the case of the pattern as written
     if isinstance(x, int):
         return chr(x).lower() == ch
     return sstr.cp_map(x, "lower") == ord(ch)
